@@ -194,7 +194,7 @@ func c19Check(t *testing.T, c c19Case) (out [][2]string) {
 func TestVerifC19(t *testing.T) {
 	r := ev.Begin("C19", "enum")
 	defer r.End(t)
-	r.Rule = "cases = all 127 masks x 7 changes x {same, other} interface; all change sequences of length<=3 over the 7 changes for 3 subscriber mask sets (incl. two subscribers sharing one mask); 0..12 undrained events with a slow and a drained subscriber on the same interface+mask; multi-change / multi-interface change sets; close-on-end for every sequence length<=2 x {watch returns nil, watch fails}; all 256 rtnetlink operstate values through operStateChange/process; oracle: delivery iff mask&change!=0 and names equal, in order, first 8 kept, notify returns (synctest quiescence), channels closed exactly when Watch returns; non-trivial = every case; distinct = distinct case"
+	r.Rule = "cases = all 127 masks x 7 changes x {same, other} interface; all change sequences of length<=3 over the 7 changes for 3 subscriber mask sets (incl. two subscribers sharing one mask); 0..12 undrained events with a slow and a drained subscriber on the same interface+mask; multi-change / multi-interface change sets; close-on-end for every sequence length<=2 x {watch returns nil, watch fails}; all 256 rtnetlink operstate values through operStateChange/process; all batches of <=4 (thorough 5) messages over 3 interfaces x 3 operstates + malformed messages through process and the real notify to 4 subscribers per interface (masks any, up, down, any); oracle: delivery iff mask&change!=0 and names equal, in order, first 8 kept, notify returns (synctest quiescence), channels closed exactly when Watch returns; non-trivial = every case; distinct = distinct case"
 	if r.Replay != nil {
 		var c c19Case
 		if err := json.Unmarshal(r.Replay, &c); err != nil {
@@ -330,26 +330,40 @@ func TestVerifC19(t *testing.T) {
 			r.Violation("C19:process-batch", fmt.Sprintf("batch %v: process = %v, want %v", seq, got, wantCS), nil)
 			return true
 		}
-		// Through the real notify to subscribers of each interface.
+		// Through the real notify to subscribers of each interface: per interface one
+		// subscriber per mask (any, up only, down only) and a second "any" subscriber; each
+		// must receive exactly that interface's changes matching its mask, in batch order.
 		w := NewWatcher()
-		subs := map[string]<-chan Change{}
+		type sub struct {
+			ifi  string
+			mask Change
+			ch   <-chan Change
+		}
+		var subs []sub
 		for _, ifi := range []string{"eth0", "eth1", "eth2"} {
-			subs[ifi] = w.Subscribe(ifi, LinkAny)
+			for _, mask := range []Change{LinkAny, LinkUp, LinkDown, LinkAny} {
+				subs = append(subs, sub{ifi, mask, w.Subscribe(ifi, mask)})
+			}
 		}
 		w.notify(cs)
-		for ifi, ch := range subs {
-			var rec []Change
+		for _, sb := range subs {
+			var rec, wantRec []Change
 		drain:
 			for {
 				select {
-				case c := <-ch:
+				case c := <-sb.ch:
 					rec = append(rec, c)
 				default:
 					break drain
 				}
 			}
-			if fmt.Sprint(rec) != fmt.Sprint(wantCS[ifi]) {
-				r.Violation("C19:batch-delivery", fmt.Sprintf("batch %v: subscriber of %s received %v, want %v", seq, ifi, rec, wantCS[ifi]), nil)
+			for _, c := range wantCS[sb.ifi] {
+				if c&sb.mask != 0 {
+					wantRec = append(wantRec, c)
+				}
+			}
+			if fmt.Sprint(rec) != fmt.Sprint(wantRec) {
+				r.Violation("C19:batch-delivery", fmt.Sprintf("batch %v: subscriber of %s with mask %v received %v, want %v", seq, sb.ifi, sb.mask, rec, wantRec), nil)
 			}
 		}
 		return true
